@@ -166,6 +166,8 @@ class BackwardRun:
     def check_slices(self, orders) -> list[str]:
         """C01 (ii): every input received exactly its own slice of the aggregated vector."""
         outv = self.agg.calls[0]["out"].reshape(-1)
+        if not bool(torch.isfinite(outv).all()):
+            return []          # a non-finite aggregation (degenerate matrix for that aggregator) says nothing about slicing
         sizes = {l: self.scn["prog"][l - 1]["size"] for l in self.inputs}
         msgs = []
         for order in orders:
